@@ -238,7 +238,7 @@ fn enabled(inst: &Instance, hist: &[Act], r: &RunResult) -> Vec<Act> {
     out
 }
 
-fn canon_of(hist: &[Act], r: &RunResult) -> (u64, u64) {
+fn canon_of(hist: &[Act], r: &RunResult, bad: bool) -> (u64, u64) {
     let (fails, pend, canc, eof) = spend(hist);
     let mut bytes: Vec<u8> = vec![];
     bytes.extend_from_slice(&(r.buffer.len() as u32).to_le_bytes());
@@ -253,6 +253,13 @@ fn canon_of(hist: &[Act], r: &RunResult) -> (u64, u64) {
     bytes.extend_from_slice(&(r.offered as u32).to_le_bytes());
     bytes.extend_from_slice(&r.offered_bytes);
     bytes.extend_from_slice(&(r.written.len() as u32).to_le_bytes());
+    // the observable past is part of the key: on a correct tree it is a function of the rest of
+    // the key (so nothing is split), on a broken one it keeps a violating history from being
+    // merged with a clean twin
+    bytes.extend_from_slice(&crate::report::h64(&r.written).to_le_bytes());
+    // (results are not in the key: a history whose results deviate from the reference is judged
+    // `bad` at the transition where it deviates, and `bad` is in the key)
+    bytes.push(bad as u8);
     bytes.extend_from_slice(&[fails, pend, canc, eof as u8, r.finished as u8]);
     bytes.extend_from_slice(&(r.calls_started as u32).to_le_bytes());
     bytes.extend_from_slice(&(r.results.len() as u32).to_le_bytes());
@@ -321,7 +328,7 @@ impl E2Model {
                 s.push(json!({"instance": inst.label, "history": format!("{:?}", hist), "results": r.results, "written": crate::report::hex(&r.written)}));
             }
         }
-        let (canon, canon2) = canon_of(&hist, &r);
+        let (canon, canon2) = canon_of(&hist, &r, bad);
         let en = if bad { vec![] } else { enabled(inst, &hist, &r) };
         St { inst: inst_idx, hist, canon, canon2, enabled: en }
     }
@@ -394,14 +401,24 @@ pub fn explore(property: &str, instances: Vec<Instance>, judge: Arc<Judge>) -> E
             break;
         }
     }
-    if outs.len() == 2 && outs[0].states != outs[1].states {
+    if outs.len() == 2 && outs[0].states != outs[1].states && outs[0].found.is_empty() && outs[1].found.is_empty() {
         eprintln!(
             "MACHINERY: unique state count depends on the thread count ({} vs {}): the canonical form or the subject is not deterministic",
             outs[0].states, outs[1].states
         );
         std::process::exit(4);
     }
-    outs.remove(0)
+    let second = if outs.len() == 2 { Some(outs.remove(1)) } else { None };
+    let mut first = outs.remove(0);
+    if let Some(sec) = second {
+        for (k, v) in sec.found {
+            let better = first.found.get(&k).map(|o| o.hist.len() > v.hist.len()).unwrap_or(true);
+            if better {
+                let _ = first.found.insert(k, v);
+            }
+        }
+    }
+    first
 }
 
 /// Re-execute one history without the explorer, twice, and require identical observations.
